@@ -16,7 +16,7 @@ import (
 // global variables stay symbolic, so one explored shape stands for all values.
 
 var AllBinOps = [...]string{"+", "-", "*", "/", "%", "&", "|", "&&", "||", "<", "<=", ">", ">=", "==", "!=", "<<", ">>"}
-var RepBinOps = [...]string{"+", "-", "/", "%", "&", "<", "==", "<<"} // one per VM dispatch group (+ a non-commutative one)
+var RepBinOps = [...]string{"+", "<<", "/", "%", "-", "&", "<", "=="} // one per VM dispatch group (+ a non-commutative one)
 var UnOps = [...]string{"-", "#", "!", "~"}
 
 type Gen struct {
